@@ -431,6 +431,10 @@ pub fn run_check(id: &str, tier: &str, seed: u64) -> i32 {
             for i in r.inconclusive {
                 *agg.inconclusive.entry(format!("e2e: {i}")).or_insert(0) += 1;
             }
+            let slow = agg.inconclusive.get("e2e: crash session too slow to judge").copied().unwrap_or(0);
+            if slow > 14 {
+                agg.inconclusive.insert("harness panic: too many E2E crash sessions were too slow to judge".into(), slow);
+            }
         }
         if !complete {
             agg.inconclusive.insert("enumeration stopped by the wall-clock watchdog".into(), 1);
@@ -841,7 +845,11 @@ pub fn run_driver_check(id: &str, tier: &str, seed: u64) -> i32 {
                 for (k, v) in r.evals {
                     *evals.entry(k).or_insert(0) += v;
                 }
-                inconclusive.extend(r.inconclusive);
+                let slow = r.inconclusive.iter().filter(|x| x.contains("too slow")).count();
+                if slow * 4 > if thorough { 400 } else { 40 } {
+                    inconclusive.push(format!("{slow} E2E wire sessions were too slow to judge"));
+                }
+                inconclusive.extend(r.inconclusive.into_iter().filter(|x| !x.contains("too slow")));
             }
             Err(e) => inconclusive.push(format!("e2e: {e}")),
         }
@@ -927,9 +935,13 @@ pub fn run_c06(id: &str, tier: &str, seed: u64) -> i32 {
             for (k, (n, w)) in r.violations {
                 e2e_viol.push((k, n, w));
             }
-            let soft: Vec<String> = r.inconclusive.iter().filter(|x| x.contains("valgrind")).cloned().collect();
-            extra["e2e_inconclusive_valgrind"] = json!(soft.len());
-            inconclusive.extend(r.inconclusive.into_iter().filter(|x| !x.contains("valgrind")));
+            let soft: Vec<String> = r.inconclusive.iter().filter(|x| x.contains("valgrind") || x.contains("too slow")).cloned().collect();
+            extra["e2e_sessions_inconclusive_for_timing"] = json!(soft.len());
+            let n_sessions = if thorough { 3060 } else { 120 };
+            if soft.len() * 10 > n_sessions {
+                inconclusive.push(format!("{} of {n_sessions} E2E sessions were too slow to judge", soft.len()));
+            }
+            inconclusive.extend(r.inconclusive.into_iter().filter(|x| !x.contains("valgrind") && !x.contains("too slow")));
         }
         Err(_) => inconclusive.push("plugin binary not provided".into()),
     }
@@ -1019,7 +1031,11 @@ pub fn run_c14(id: &str, tier: &str, seed: u64) -> i32 {
         for (k, v) in r.evals {
             *st.evals.entry(if k == "R14a-e2e" { "R14a-e2e" } else { "e2e" }).or_insert(0) += v;
         }
-        inconclusive.extend(r.inconclusive);
+        let slow = r.inconclusive.iter().filter(|x| x.contains("too slow")).count();
+        if slow * 4 > if thorough { 200 } else { 24 } {
+            inconclusive.push(format!("{slow} E2E isolation sessions were too slow to judge"));
+        }
+        inconclusive.extend(r.inconclusive.into_iter().filter(|x| !x.contains("too slow")));
     } else {
         inconclusive.push("plugin binary not provided".into());
     }
